@@ -116,6 +116,17 @@ pub struct Hist {
     pub upgrades: u64,
     /// the canister's (mock) clock, seconds
     pub now: u64,
+    /// headers of valid blocks that were announced but (so far) not delivered
+    pub hidden: Vec<Hidden>,
+}
+
+#[derive(Clone, Debug)]
+pub struct Hidden {
+    pub hash: H,
+    pub parent: H,
+    pub time: u32,
+    pub height: u32,
+    pub header: Vec<u8>,
 }
 
 fn short(h: &H) -> String {
@@ -179,6 +190,7 @@ impl Hist {
             fee: None,
             upgrades: 0,
             now: world::MOCK_NOW_SECS,
+            hidden: vec![],
         }
     }
 
@@ -270,6 +282,7 @@ impl Hist {
         self.rng.shuffle(&mut avail);
         let mut used: std::collections::BTreeSet<(H, u32)> = Default::default();
 
+        let mut shared_outs: Vec<((H, u32), u64)> = vec![];
         // re-confirm a transaction first seen on another fork
         if !self.pool.is_empty() && self.rng.chance(self.cfg.share_pct, 100) {
             let i = self.rng.usize_below(self.pool.len());
@@ -286,19 +299,29 @@ impl Hist {
                 for k in &ins {
                     used.insert(*k);
                 }
+                // its outputs can be spent further down in this very block
+                {
+                    use bitcoin::hashes::Hash;
+                    let txid = tx.compute_txid().to_byte_array();
+                    for (j, o) in tx.output.iter().enumerate() {
+                        if o.script_pubkey.as_bytes().first() != Some(&0x6a) && !ledger.contains_key(&(txid, j as u32)) {
+                            shared_outs.push(((txid, j as u32), o.value.to_sat()));
+                        }
+                    }
+                }
                 txs.push(tx);
             }
         }
 
-        let n_tx = self.rng.usize_below(self.cfg.max_txs + 1);
-        let mut local: Vec<((H, u32), u64)> = vec![];
+        let n_tx = self.rng.usize_below(self.cfg.max_txs + 1) + if shared_outs.is_empty() { 0 } else { 1 };
+        let mut local: Vec<((H, u32), u64)> = shared_outs;
         for _ in 0..n_tx {
             let n_in = self.rng.range(1, 3) as usize;
             let mut ins: Vec<(H, u32)> = vec![];
             let mut total: u64 = 0;
             for _ in 0..n_in {
                 // same-block create-and-spend
-                if !local.is_empty() && self.rng.chance(1, 4) {
+                if !local.is_empty() && self.rng.chance(2, 5) {
                     let j = self.rng.usize_below(local.len());
                     let (k, v) = local.remove(j);
                     ins.push(k);
@@ -362,6 +385,11 @@ impl Hist {
             txs.push(tx);
         }
         let time = ptime + self.rng.range(1, 900) as u32;
+        // the clock only moves forward: keep generated blocks within the +2h rule
+        if time as u64 > self.now + 7000 && self.cfg.path != Path::Dry {
+            self.now = time as u64 - 3600;
+            ic_btc_canister::runtime::mock_time::set_mock_time_secs(self.now);
+        }
         let mine = self.cfg.path != Path::Push;
         gen::make_block(self.cfg.net, *parent, time, txs, mine)
     }
@@ -736,5 +764,49 @@ pub fn is_ancestor_or_self(m: &Model, a: &H, b: &H) -> bool {
             }
             _ => return false,
         }
+    }
+}
+
+impl Hist {
+    /// A chain of 1..=n valid headers (coinbase-only blocks, mined) on a live block or on a
+    /// previously announced hidden header. Returns the 80-byte headers in chain order.
+    pub fn hidden_header_chain(&mut self, n: usize) -> Vec<Vec<u8>> {
+        let r = self.rng.below(10);
+        let (mut parent, mut time, mut height) = if !self.hidden.is_empty() && r < 5 {
+            // on top of an announced header: mostly a recent one (it may have gone stale meanwhile)
+            let x = if self.rng.chance(2, 3) {
+                let k = self.hidden.len() - 1 - self.rng.usize_below(self.hidden.len().min(3));
+                self.hidden[k].clone()
+            } else {
+                self.rng.pick(&self.hidden).clone()
+            };
+            (x.hash, x.time, x.height)
+        } else {
+            let live = self.model.live_preorder();
+            let p = if r < 8 {
+                // close to the anchor, where announced headers are pruned soonest
+                live[self.rng.usize_below(live.len().min(3))]
+            } else {
+                *self.rng.pick(&live)
+            };
+            (p, self.model.blocks[&p].time, self.model.blocks[&p].height)
+        };
+        let mut out = vec![];
+        for _ in 0..n {
+            self.uniq += 1;
+            let cb = gen::coinbase_tx(height + 1, self.uniq, vec![(1, self.uni.addrs[0].script.clone())]);
+            time += self.rng.range(1, 600) as u32;
+            let b = gen::make_block(self.cfg.net, parent, time, vec![cb], true);
+            let hash = gen::hash_of(&b);
+            let header = gen::header_bytes(&b.header);
+            self.hidden.push(Hidden { hash, parent, time, height: height + 1, header: header.clone() });
+            if self.hidden.len() > 24 {
+                self.hidden.remove(0);
+            }
+            out.push(header);
+            parent = hash;
+            height += 1;
+        }
+        out
     }
 }
